@@ -4,7 +4,11 @@
  **/
 'use strict'
 const { getPrepareStackTrace, kSymbolPrepareStackTrace } = require('./js/stack-trace/')
-const { cacheRewrittenSourceMap, getOriginalPathAndLineFromSourceMap } = require('./js/source-map')
+const {
+  cacheRewrittenSourceMap,
+  removeRewrittenSourceMap,
+  getOriginalPathAndLineFromSourceMap
+} = require('./js/source-map')
 
 class DummyRewriter {
   rewrite (code, file) {
@@ -70,6 +74,10 @@ class CacheRewriter extends NonCacheRewriter {
       const { metrics, content } = response
       if (metrics?.status === 'modified') {
         cacheRewrittenSourceMap(file, content)
+      } else {
+        // the file has been rewritten again without changes: a source map cached by a
+        // previous rewrite of the same file does not describe its content anymore
+        removeRewrittenSourceMap(file)
       }
     } catch (e) {
       this.logError(e)
